@@ -5,6 +5,7 @@ import (
 	"github.com/edsrzf/mmap-go"
 	"io"
 	"os"
+	"sync"
 	"unsafe"
 )
 
@@ -15,6 +16,9 @@ const (
 )
 
 type MMap struct {
+	// 保护映射状态: 旧数据文件的读取不持有 DB 锁, 可能与其他读取触发的重新映射、
+	// 以及 Backup/Close 的解除映射并发执行
+	mu          sync.RWMutex
 	file        *os.File
 	activeMap   mmap.MMap // 当前活动映射区域
 	endOff      int64     // 当前映射区域的右边界
@@ -47,15 +51,34 @@ func NewMMap(fileName string) (*MMap, error) {
 }
 
 func (m *MMap) Read(b []byte, offset int64) (int, error) {
+	m.mu.RLock()
 	// 检查边界
+	if offset >= m.virtualSize {
+		m.mu.RUnlock()
+		return 0, io.EOF
+	}
+	if offset+int64(len(b)) <= m.endOff {
+		// 所需区域已映射, 不会修改映射状态, 持读锁并发读取
+		n := m.copyOut(b, offset)
+		m.mu.RUnlock()
+		return n, nil
+	}
+	m.mu.RUnlock()
+
+	// 所需区域尚未映射 (如 ResetFileSize 之后): 持写锁重新映射并读取
+	m.mu.Lock()
+	defer m.mu.Unlock()
 	if offset >= m.virtualSize {
 		return 0, io.EOF
 	}
-
 	if err := m.remap(offset, len(b)); err != nil {
 		return 0, err
 	}
+	return m.copyOut(b, offset), nil
+}
 
+// 从映射区域拷贝数据, 调用方需持有锁且保证所需区域已映射
+func (m *MMap) copyOut(b []byte, offset int64) int {
 	// 计算实际可读范围
 	readEnd := offset + int64(len(b))
 	if readEnd > m.virtualSize {
@@ -64,10 +87,12 @@ func (m *MMap) Read(b []byte, offset int64) (int, error) {
 
 	// 执行拷贝
 	copy(b, m.activeMap[offset:readEnd])
-	return int(readEnd - offset), nil
+	return int(readEnd - offset)
 }
 
 func (m *MMap) Write(b []byte) (int, error) {
+	m.mu.Lock()
+	defer m.mu.Unlock()
 	if err := m.remap(m.virtualSize, len(b)); err != nil {
 		return 0, err
 	}
@@ -77,6 +102,8 @@ func (m *MMap) Write(b []byte) (int, error) {
 }
 
 func (m *MMap) Sync() error {
+	m.mu.RLock()
+	defer m.mu.RUnlock()
 	// 映射已被 ResetFileSize 解除时, 数据已全部刷盘, 仅需同步文件本身
 	if m.activeMap == nil {
 		return m.file.Sync()
@@ -85,18 +112,28 @@ func (m *MMap) Sync() error {
 }
 
 func (m *MMap) Close() error {
+	m.mu.Lock()
+	defer m.mu.Unlock()
 	// 持久化、解除映射并恢复文件真实大小
-	if err := m.ResetFileSize(); err != nil {
+	if err := m.resetFileSize(); err != nil {
 		return err
 	}
 	return m.file.Close()
 }
 
 func (m *MMap) Size() (int64, error) {
+	m.mu.RLock()
+	defer m.mu.RUnlock()
 	return m.virtualSize, nil
 }
 
 func (m *MMap) ResetFileSize() error {
+	m.mu.Lock()
+	defer m.mu.Unlock()
+	return m.resetFileSize()
+}
+
+func (m *MMap) resetFileSize() error {
 	// 截断前必须先持久化并解除映射: 文件缩小后继续访问原映射中超出文件末尾的页会触发 SIGBUS
 	if m.activeMap != nil {
 		if err := m.activeMap.Flush(); err != nil {
